@@ -296,6 +296,10 @@ theorem invS_envStep (s : St) (e : EnvOp) (h : InvS s none) : InvS (envStep s e)
     · rename_i l hl; exact invS_updListener s none i l _ h hl
     · exact h
   case advance dt => exact ⟨h.selSub, h.kind, h.hasCb, h.closing, h.ncLive, h.noFault⟩
+  case connFail i =>
+    split
+    · rename_i l hl; exact invS_updEst s none i l _ h hl
+    · exact h
 
 theorem invS_mkPair (s : St) (i : Id) (h : InvS s none) : InvS (mkPair s i) none := by
   unfold mkPair
